@@ -24,7 +24,8 @@ BOUNDED = {
     r'^load_model\.history': 'the history load ; empty ; load',
     r'^asdf\.writer': 'processed-data mappings of two groups',
 }      # unit-name / obligation-name patterns -> the family these obligations are proved for
-TRUSTED = ["the ASDF library writes and reads back the tree it is given; xr.Dataset/DataTree/DataArray.to_dict/from_dict and DataFrame.to_dict/DataFrame(dict) are mutually inverse "
+TRUSTED = ["multi-wavelength photon cube: xarray.DataArray.from_dict(a.to_dict()) equals a (library contract); the cube is an abstract DataArray (C13) and any other DataArray method yields an array not known to equal it",
+           "the ASDF library writes and reads back the tree it is given; xr.Dataset/DataTree/DataArray.to_dict/from_dict and DataFrame.to_dict/DataFrame(dict) are mutually inverse "
            "(scene, processed data and the charge cluster table are boundaries)", "HDF5 backend (h5py) is not installed: not covered",
            "APDCharacteristics is covered for freshly constructed objects only (known finding after setter use)"]
 G = D.GEN
@@ -547,3 +548,107 @@ def asdf_writer(u: Unit):
         okf = isinstance(fr_, VOpaque) and fr_.info.get("fn") is not None and str(fr_.info["fn"].info.get("attr")) == "to_dict" and fr_.info["fn"].info.get("of") is h["df"]
         u.oblige(p, "asdf.writer.cluster_table_in_list_form", bool(okf), {}, ASDF_REPLAY)
     u.cover("asdf.writer.cover", [1] * n_ret, lambda _: True)
+
+
+# ---- multi-wavelength photon cube: Photon.to_dict / Photon.from_dict ------------------------------------------------------------------
+CUBE_REPLAY = lambda w: {"code": """
+import numpy as np, xarray as xr, verif_probes as VP
+from pyxel.data_structure import Photon
+VIOLATED, DETAIL = False, 'the photon cube read back equals the one written (values and wavelength order)'
+for wl in ([500.0, 600.0, 700.0], [900.0, 700.0, 500.0], [650.0, 420.0, 800.0]):
+    det = VP.detector(rows=2, cols=3)
+    cube = xr.DataArray(np.arange(18, dtype=float).reshape(3, 2, 3), dims=['wavelength', 'y', 'x'], coords={'wavelength': wl})
+    det.photon.array_3d = cube
+    back = Photon.from_dict(geometry=det.geometry, data=det.photon.to_dict())
+    got = back.array_3d
+    if list(got['wavelength'].values) != wl or not np.array_equal(got.values, cube.values) or not (back == det.photon):
+        VIOLATED, DETAIL = True, f'wavelengths {wl} read back as {list(got["wavelength"].values)}; first plane {got.values[0].ravel()[:3].tolist()} (written {cube.values[0].ravel()[:3].tolist()})'; break
+""", "expect": "Photon.from_dict(Photon.to_dict(p)) holds the same cube, in the same wavelength order"}
+
+
+@unit("C18", "photon3d")
+def photon3d_unit(u: Unit):
+    """Photon.to_dict / from_dict for a multi-wavelength cube (an abstract xarray.DataArray, as in C13): the dictionary handed to
+    DataArray.from_dict is, key for key and value for value, the one DataArray.to_dict produced (the '/' <-> '#' renaming of keys
+    undone), and the container ends up holding that array itself (copies only) — library contract: from_dict(to_dict(a)) equals a;
+    any OTHER DataArray method between reading and storing yields an array that is not known to equal it."""
+    from . import C13
+    PH = "pyxel/data_structure/photon.py"
+    td, fd = u.fn(f"{PH}::Photon.to_dict"), u.fn(f"{PH}::Photon.from_dict")
+    u.fn(f"{PH}::Photon.array_3d.setter") if False else None
+    pci = u.cls(f"{PH}::Photon")
+    cfg = C13.mk_cfg()
+    base_attr = cfg.lib_overrides[("opaque_attr", "DataArray")]
+
+    def attr(ex, obj, name, fr):
+        if name == "to_dict":
+            return VLib("xr.DataArray.to_dict", obj)
+        try:
+            return base_attr(ex, obj, name, fr)
+        except Unsupported:
+            return VLib("xr.DataArray.<other>", obj)      # sortby, transpose, isel, roll, ...: some other array
+    cfg.lib_overrides[("opaque_attr", "DataArray")] = attr
+
+    def to_dict(ex, f, args, kwargs, fr):
+        src = f.self_val
+        items = [(VStr("dims"), VOpaque("xr", ex.st.fresh_int("v"), {"label": "dims"})), (VStr("coords/wavelength"), VOpaque("xr", ex.st.fresh_int("v"), {"label": "coords"})),
+                 (VStr("data"), VOpaque("xr", ex.st.fresh_int("v"), {"label": "data"})), (VStr("attrs"), VOpaque("xr", ex.st.fresh_int("v"), {"label": "attrs"}))]
+        ex.hold["to_dict"] = (src, items)
+        return ex.st.alloc(HDict(list(items)))
+
+    def from_dict(ex, f, args, kwargs, fr):
+        d = ex.try_dict(args[0]) if args else None
+        src, items = ex.hold.get("to_dict", (None, []))
+        same = d is not None and len(d) == len(items) and all(isinstance(k, VStr) and is_conc(k.v) and k.v == k0.v and v is v0 for (k, v), (k0, v0) in zip(d, items))
+        ex.hold["from_dict_same"] = bool(same)
+        info = dict(src.info) if same else dict(C13.mk_xr(ex, "loaded").info)
+        info["content_of"] = src if same else None
+        return VOpaque("DataArray", ex.st.fresh_int("xr"), info)
+
+    def other(ex, f, args, kwargs, fr):
+        info = dict(f.self_val.info)
+        info["content_of"] = None
+        info["nonneg"] = ex.st.fresh_bool("nonneg")
+        return VOpaque("DataArray", ex.st.fresh_int("xr"), info)
+
+    def copy(ex, f, args, kwargs, fr):
+        info = dict(f.self_val.info)
+        info.setdefault("content_of", f.self_val)
+        if info.get("content_of") is None and "content_of" in f.self_val.info:
+            info["content_of"] = None
+        return VOpaque("DataArray", ex.st.fresh_int("xr"), info)
+    cfg.lib_overrides["xr.DataArray.to_dict"] = to_dict
+    cfg.lib_overrides["xarray.DataArray.from_dict"] = from_dict
+    cfg.lib_overrides["xr.DataArray.<other>"] = other
+    cfg.lib_overrides["xr.DataArray.copy"] = copy
+    cfg.lib_overrides[("isinstance", "DataArray")] = lambda ex, v, libs, clss: VBool("xarray.DataArray" in libs)
+
+    def setup(ex):
+        ex.hold = {}
+        geo = C13.mk_geo(ex, u)
+        ex.geo = geo
+        cube = C13.mk_xr(ex, "cube", valid=True, nonneg=z3.BoolVal(True))      # what a Photon container can hold (C13)
+        ex.st.assume(cube.info["has_wl"])
+        ex.cube = cube
+        ph = ex.instantiate(pci, [], {"geo": geo}, Frame(None, pci.module))
+        ex.st.cell(ph).fields["_array"] = cube
+        return [ph], {}
+    ps = u.paths(td, setup, cfg, label="Photon.to_dict[3-D]")
+    n_ok = 0
+    for p in ps:
+        if p.kind != "return":
+            u.oblige(p, "photon3d.to_dict_no_raise", False, {"exc": p.exc_name()}, CUBE_REPLAY)
+            continue
+        try:
+            back = p.ex.call_function(VFunc(fd, VClass(pci)), [], {"geometry": p.ex.geo, "data": p.value}, Frame(None, fd.module))
+        except PyExc as pe:
+            u.oblige(p, "photon3d.from_dict_no_raise", False, {"exc": p.ex.exc_class_name(pe.val)}, CUBE_REPLAY)
+            continue
+        n_ok += 1
+        u.oblige(p, "photon3d.dictionary_read_is_the_dictionary_written", bool(p.ex.hold.get("from_dict_same")), {}, CUBE_REPLAY)
+        got = p.st.cell(back).fields.get("_array") if isinstance(back, VRef) else None
+        node, hops = got, 0
+        while isinstance(node, VOpaque) and node is not p.ex.cube and node.info.get("content_of") is not None and hops < 6:
+            node, hops = node.info["content_of"], hops + 1
+        u.oblige(p, "photon3d.container_holds_the_cube_written", node is p.ex.cube, {"stored": str(got)}, CUBE_REPLAY)
+    u.static("photon3d.cover", n_ok >= 1, td.qualname, f"{n_ok} round trips explored")
